@@ -127,6 +127,7 @@ pub fn build_arg(a: &Value) -> Arg {
     match vp["k"].as_str().unwrap() {
         "string" => {}
         "os" => x = x.value_parser(clap::value_parser!(std::ffi::OsString)),
+        "path" => x = x.value_parser(clap::value_parser!(std::path::PathBuf)),
         "int" => x = x.value_parser(clap::value_parser!(i64).range(vp["lo"].as_i64().unwrap()..=vp["hi"].as_i64().unwrap())),
         "possible" => {
             let pvs: Vec<clap::builder::PossibleValue> = vp["pvs"].as_array().unwrap().iter().enumerate().map(|(i, n)| {
